@@ -73,6 +73,7 @@ def load_kani_units():
                 "stubs": [f.strip() for f in kv.get("stubs", "").split(";") if f.strip()],
                 "havoc": kv.get("havoc", "0") == "1",
                 "heavy": kv.get("heavy", "0") == "1",
+                "nocontracts": kv.get("nocontracts", "0") == "1",
                 "replay": kv.get("replay", "1") == "1",
                 "note": kv.get("note", ""),
                 "contract_of": kv.get("contract_of", ""),
@@ -96,9 +97,25 @@ def load_kani_units():
 IMPLIED = {"C01": ["C02", "C11"], "C02": ["C11"], "C08": ["C11"], "C04": ["C08"], "C09": ["C08"]}
 
 
+QUICK_IMPLIED_MAX_S = 100.0   # quick tier: units of a dependency only if they take less than this
+
+
+def _times():
+    import json
+    try:
+        return json.load(open(os.path.join(os.path.dirname(os.path.abspath(__file__)), "unit_times.json")))
+    except Exception:
+        return {}
+
+
 def select(units, prop, tier):
-    want = [prop] + IMPLIED.get(prop, [])
-    sel = [u for u in units if any(p in u["props"] for p in want)]
+    own = [u for u in units if prop in u["props"]]
+    implied = [u for u in units if prop not in u["props"] and any(p in u["props"] for p in IMPLIED.get(prop, []))]
     if tier == "quick":
-        sel = [u for u in sel if u["tier"] == "quick"]
-    return sel
+        # the quick command has to finish in minutes: the dependency's units are included when
+        # they are cheap (last measured time, lib/unit_times.json); the thorough tier runs all.
+        t = _times()
+        own = [u for u in own if u["tier"] == "quick"]
+        implied = [u for u in implied if u["tier"] == "quick" and not u.get("heavy")
+                   and t.get(u["name"], 9999.0) <= QUICK_IMPLIED_MAX_S]
+    return own + implied
